@@ -1,6 +1,8 @@
 (* Extraction of the executable collector model (ExtrOcamlBasic only: nat, positive, N stay the
-   extracted inductive datatypes; no Extract Constant / Extract Inductive of our own). *)
+   extracted inductive datatypes; no Extract Constant / Extract Inductive of our own).
+   coqc runs with /verif/coq as working directory (Makefile, vlib and ocaml/C09/build.sh alike); the
+   output directory is git-ignored and is created by tools/gen_c09.py / build.sh. *)
 From Coq Require Import ExtrOcamlBasic.
 From C09 Require Import GcModel.
 Extraction Language OCaml.
-Extraction "gcmodel.ml" GcModel.init GcModel.step GcModel.collect GcModel.dangling.
+Extraction "../ocaml/C09/_build/gcmodel.ml" GcModel.init GcModel.step GcModel.collect GcModel.dangling.
